@@ -303,7 +303,64 @@ static J gen_grid(Chooser &ch)
   // every write mode the tool passes on to its VTU writer; "" = the line is absent (documented default: ASCII)
   c["format"] = ch.pick<std::string>({"ASCII", "ASCII", "", "Base64Inline", "Base64Appended", "Base64Appended", "RawBinary", "RawBinaryCompressed", "RawBinaryCompressed", "base64appended"});
   c["sph"] = w.fr.sph; c["R"] = w.fr.R; c["H"] = w.fr.H;
+  // 45%: the same requests written differently - lines in another order, '#' comment lines in between, counts zero-padded
+  // (n_cell_x = 010 asks for ten cells), bounds in exponent notation or with a trailing '.0', a comma behind a value
+  if (ch.chance(45))
+    {
+      J st = J::obj();
+      st["perm"] = static_cast<double>(ch.range(0, 1000000));
+      st["comments"] = ch.flip();
+      st["pad"] = ch.pick<int>({0, 2, 3, 3});
+      st["spelling"] = static_cast<int>(ch.range(0, 2));
+      st["comma"] = ch.chance(30);
+      c["style"] = st;
+    }
   return c;
+}
+
+// a bound in another spelling of the same number: exponent notation with the shortest mantissa that round-trips, or a trailing ".0"
+static std::string respell(double v, int how)
+{
+  if (how == 1)
+    for (int prec = 1; prec <= 17; ++prec)
+      {
+        char buf[64];
+        std::snprintf(buf, sizeof buf, "%.*e", prec - 1, v);
+        if (std::strtod(buf, nullptr) == v) return buf;
+      }
+  if (how == 2 && v == std::floor(v) && std::fabs(v) < 1e15) { char buf[64]; std::snprintf(buf, sizeof buf, "%.1f", v); return buf; }
+  return fmt(v);
+}
+
+static std::string grid_text(const J &c)
+{
+  const J st = c.has("style") ? c.at("style") : J::obj();
+  const int pad = st.has("pad") ? static_cast<int>(st.at("pad").num()) : 0, spelling = st.has("spelling") ? static_cast<int>(st.at("spelling").num()) : 0;
+  const std::string comma = st.has("comma") && st.at("comma").boolean() ? "," : "";
+  auto count = [&](double n) { char buf[32]; std::snprintf(buf, sizeof buf, "%0*u", pad, static_cast<unsigned>(n)); return std::string(buf); };
+  std::vector<std::string> lines;
+  lines.push_back("grid_type = " + c.at("grid_type").str());
+  lines.push_back("dim = " + count(c.at("dim").num()));
+  lines.push_back("compositions = " + count(c.at("compositions").num()));
+  const std::string format = c.has("format") ? c.at("format").str() : "ASCII";
+  if (!format.empty()) lines.push_back("vtu_output_format = " + format);
+  for (const char *k : {"x_min", "x_max", "y_min", "y_max", "z_min", "z_max"}) lines.push_back(std::string(k) + " = " + respell(c.at(k).num(), spelling) + comma);
+  lines.push_back("n_cell_x = " + count(c.at("nx").num()) + comma);
+  lines.push_back("n_cell_y = " + count(c.at("ny").num()));
+  lines.push_back("n_cell_z = " + count(c.at("nz").num()));
+  if (st.has("perm"))
+    {
+      // a permutation derived from one generated number (a fixed linear congruence, no randomness of its own)
+      uint64_t x = static_cast<uint64_t>(st.at("perm").num()) * 2654435761u + 12345u;
+      for (size_t i = lines.size(); i > 1; --i) { x = x * 6364136223846793005ull + 1442695040888963407ull; std::swap(lines[i - 1], lines[(x >> 33) % i]); }
+    }
+  std::string grid;
+  for (size_t i = 0; i < lines.size(); ++i)
+    {
+      if (st.has("comments") && st.at("comments").boolean() && i % 3 == 1) grid += "# n_cell_x = 77 is what this line does not ask for\n";
+      grid += lines[i] + "\n";
+    }
+  return grid;
 }
 
 struct Node { double x, y, z, depth; };
@@ -320,17 +377,14 @@ static Result check_grid(const J &c)
   const int dim = static_cast<int>(c.at("dim").num());
   const unsigned ncomp = static_cast<unsigned>(c.at("compositions").num());
   const size_t nx = static_cast<size_t>(c.at("nx").num()), ny = static_cast<size_t>(c.at("ny").num()), nz = static_cast<size_t>(c.at("nz").num());
-  std::string grid = "grid_type = " + type + "\ndim = " + std::to_string(dim) + "\ncompositions = " + std::to_string(ncomp) + "\n";
   const std::string format = c.has("format") ? c.at("format").str() : "ASCII";
-  if (!format.empty()) grid += "vtu_output_format = " + format + "\n";
-  for (const char *k : {"x_min", "x_max", "y_min", "y_max", "z_min", "z_max"}) grid += std::string(k) + " = " + fmt(c.at(k).num()) + "\n";
-  grid += "n_cell_x = " + std::to_string(nx) + "\nn_cell_y = " + std::to_string(ny) + "\nn_cell_z = " + std::to_string(nz) + "\n";
-  write_file(dir + "/g.grid", grid);
+  write_file(dir + "/g.grid", grid_text(c));
   std::string out;
   const int rc = run_cmd("cd '" + dir + "' && '" + exe + "' -j " + std::to_string(static_cast<int>(c.at("j").num())) + " " + c.at("flags").str() + " w.wb g.grid 2>&1", out);
   auto W = make_world(c.at("world").str());
   r.classes.push_back(type + " dim=" + std::to_string(dim));
   r.classes.push_back("format=" + (format.empty() ? std::string("<default>") : format));
+  if (c.has("style")) { r.classes.push_back("grid file re-styled (line order, comments, spellings)"); if (c.at("style").at("pad").num() > 0) r.classes.push_back("zero-padded counts"); }
   if (rc != 0) return Result::fail("grid-run-failed", "gwb-grid ended with status " + std::to_string(rc) + " on a valid grid file: " + out.substr(0, 400));
   const Vtu v = read_vtu(dir + "/w.vtu");
   if (!v.ok) return Result::fail("vtu-malformed", "main output: " + v.error);
